@@ -293,9 +293,10 @@ def _partition():
 
 
 s, c, p = _partition()
-register(Obligation("C11.lemma#LEMMA:slices-of-an-axis-are-disjoint", ("C11",), s, c, p, modules=[],
+_o = register(Obligation("C11.lemma#LEMMA:slices-of-an-axis-are-disjoint", ("C11",), s, c, p, modules=[],
                     assumptions=["np.unique returns the distinct values in strictly ascending order, each value of the input exactly once (assumed contract); "
                                  "hence every case is in exactly one slice; slice counts add up (lean R6) and the count-weighted mean identity holds (lean R7)"]))
+_o.no_crosscheck = True     # a lemma over contracts: no code to run (and its indices are only meaningful under the range hypothesis)
 
 
 # ------------------------------------------------------------------ name -> object lookups
